@@ -56,6 +56,12 @@ FLAVOUR = {
    B. ITERATOR / GENERATOR / CONTEXT-MANAGER PROTOCOL: a generator turned into a plain function returning an iterator (or the reverse), `yield from` vs a loop, `return value` inside a generator, an iterable consumed twice or handed on half-consumed, `iter()` called once too often or too seldom, `close()` / `aclose()` / `__exit__` / `__aexit__` not reached on one path, `next(it, default)`, `zip` / `islice` / `chain` truncation, an async generator finalised late, `async with` / `async for` replaced by manual calls.
    C. DATA-MODEL PROTOCOL: `__eq__` / `__hash__` / `__bool__` / `__len__` / `__contains__` / `__iter__` / `__getitem__` (negative index, slice) / `__repr__` / `__str__` / `__bytes__` / `__copy__` / `__deepcopy__` / pickling / `__slots__` / `__init_subclass__` / `__getattr__` / descriptors (`property`, `cached_property`, classmethod vs staticmethod) / isinstance checks that exclude subclasses or include too much (bool is an int, str is a Sequence, bytes vs bytearray vs memoryview) - changed so that some legal use the property covers behaves differently.
  Ordinary everyday use must keep working - do NOT make a change that the first simple request would expose.""",
+ 15: """This round is about WHEN things happen and WHO else is around; make one change of each kind (pick, within each kind, what fits this property's code best; where the property's code is a pure function or a plain data structure, take "two callers" to mean two live objects / two call sites / a result that an earlier caller still holds while the next call runs):
+   A. SCHEDULING: an `await` (or a thread hand-off: run_in_threadpool, a thread pool submit, a queue put/get, an event wait) added, removed or moved so that something is read before and used after it; a check-then-act pair split by a suspension point; `asyncio.gather` / `wait` / `create_task` / `shield` / `wait_for` / a timeout introduced or swapped for each other; a task started and not awaited, awaited twice, or cancelled on a path where it still has to finish; work moved from call time to first iteration or to a finaliser (or the reverse); an ordering that silently depended on which of two tasks / threads runs first.
+   B. SHARING: per-request / per-call / per-connection data put somewhere that outlives the call or is visible to another call - an attribute of a long-lived application / router / response / parser object, a class attribute, a module global, a default argument, a closure variable captured once, a contextvar or threading.local used on the wrong side of a thread or task hand-off, a buffer / list / dict reused between calls "to avoid allocations", an object returned to the caller that the library keeps changing (or a caller's object the library keeps and changes).
+   C. LIFETIME: something released, closed, reset or forgotten too early or too late - a file / descriptor / iterator / generator closed before its last use or never on one path, a weak reference or `__del__` relied upon, a cache entry that outlives the thing it describes (a file that changes, an object whose id is reused), state reset at the START of the next use instead of the END of this one, one-time initialisation that is not safe to run twice or from two callers at once, an object that cannot be used a second time although it could before (or the reverse: silently reused although it must not be).
+ Ordinary everyday use - one request at a time, one object used once - must keep working: do NOT make a change that the first simple request would expose.""",
+
  5: """This round is about interactions; make three changes, each of which needs TWO things at once to show (neither alone exposes it): e.g. a feature used through a second public entry point, inside a mount or middleware, on the second use of an object, with a particular header present, with a particular chunking AND a particular content, on one interface only AND only for one method. Ordinary everyday use must keep working - do NOT make a change that the first simple request would expose.""",
 }
 
